@@ -561,7 +561,6 @@ fn cases(ctx: &Ctx, rng: &mut Rng) -> Vec<Case> {
     let ms: &[usize] = if quick { &[1, 2, 3] } else { &[1, 2, 3, 4, 5] };
     for &m in ms {
         for offset in 0..=(m * fl) {
-            let inside_first = offset <= fl;
             for fault in [Fault::CutFin, Fault::CutRst] {
                 let k = if offset % 41 == 7 { 300 } else if offset % 3 == 0 { m.max(7) } else { m };
                 push(fault, k, m, offset, rng);
